@@ -352,7 +352,12 @@ func c04Run(t *testing.T, c *choice.Stream, r *Result, opt RunOpt, forced *c04Fo
 		fault := c.Weighted("fault", 3, 3, 3, 3, 4, 2, 2, 1, 2)
 		faultName := []string{"cut_fin", "cut_rst", "write_err", "callback_err", "exception", "bad_code", "unexpected", "rows_mismatch", "corrupt"}[fault]
 		if faultName == "rows_mismatch" && (sc.kind != "insert" || len(sc.inCols) < 2) {
+			// ... or an external table whose columns are of unequal length: the
+			// request is refused while it is being encoded, before its first flush
 			faultName = "exception"
+			if c.Bool("ext.mismatch", 1, 2) {
+				faultName = "ext_mismatch"
+			}
 		}
 		script := sc.script
 		qStart := sc.afterHandshake
@@ -423,6 +428,17 @@ func c04Run(t *testing.T, c *choice.Stream, r *Result, opt RunOpt, forced *c04Fo
 				// query it ran on another connection): this query's stream is still cut
 				// short in the middle, and the error must not be mistaken for its end
 				sc.rec.FailWith = fmt.Errorf("lookup in callback: %w", &ch.Exception{Code: 60, Name: "DB::Exception", Message: "DB::Exception: Table default.other does not exist"})
+			}
+		case "ext_mismatch":
+			a, b := new(proto.ColUInt64), new(proto.ColStr)
+			for i := 0; i < c.Range("ext.rows", 1, 3); i++ {
+				a.Append(uint64(i))
+				b.Append("x")
+			}
+			b.Append("one more")
+			sc.query.ExternalData = []proto.InputColumn{{Name: "a", Data: a}, {Name: "b", Data: b}}
+			if c.Bool("ext.table", 1, 2) {
+				sc.query.ExternalTable = "ext_tbl"
 			}
 		case "rows_mismatch":
 			// the caller hands over input columns of unequal length: the block is refused while it is being written
